@@ -31,7 +31,9 @@ class C12Oracle(RaftOracle):
         self.check_log_matching = False
 
     def raised_ok(self, p):
-        return False
+        # a command that raises while it is decoded never reaches the method body: no execution is recorded for it
+        d = self.Gdec.get(p)
+        return bool(d and d[0] == 'regular' and d[3] and d[3].get('__unloadable__'))
 
     def after_event(self, ev, out, touched):
         w = self.w
